@@ -202,7 +202,7 @@ pub fn generate(seed: u64) -> C19Scn {
             env = gen_env(&mut rng); // the job moved to another runner
         }
         let time = if rng.chance(1, 2) {
-            TickTime::Clock { tick_ns: *rng.pick(&[0i64, 0, 0, 1, 1_000, 250_000_000]) }
+            TickTime::Clock { tick_ns: *rng.pick(&[0i64, 0, 0, 1, 1_000, 250_000_000, -1, -500_000_000]) }
         } else {
             TickTime::Explicit {
                 zone_off: rng.range(-48, 56) * 900,
@@ -272,8 +272,9 @@ fn candidate_instants(t: &Tick, out: &Outcome) -> Vec<(i64, i64)> {
         TickTime::Explicit { .. } => vec![t.now],
         TickTime::Clock { tick_ns } if *tick_ns == 0 => vec![t.now],
         TickTime::Clock { .. } => {
-            let first = out.clock.first.unwrap_or(t.now);
-            let last = out.clock.last;
+            // envelope of the readings (the clock may also run backwards between readings)
+            let (a, b) = (out.clock.first.unwrap_or(t.now), out.clock.last);
+            let (first, last) = (a.min(b), a.max(b));
             let mut v = vec![first, last];
             for e in expiries() {
                 if (e, 0) > first && (e, 0) < last {
@@ -457,6 +458,10 @@ pub fn run(scn: &C19Scn, stats: &mut RunStats) -> Option<Violation> {
     let mut targets: BTreeSet<String> = scn.initial_targets.iter().chain(scn.flag_targets.iter()).cloned().collect();
     let mut first_t: Option<i64> = None;
     let mut last_t: (i64, i64) = (0, 0);
+    // running maximum of the instants the committed runs may have used (envelope low / high):
+    // the file reflects every earlier run, so the configuration that counts is the latest one
+    let mut eff_lo: (i64, i64) = (i64::MIN, 0);
+    let mut eff_hi: (i64, i64) = (i64::MIN, 0);
     let mut changing_ticks = 0;
     let mut perturbed = false;
     let mut prev_env: Option<BTreeMap<String, String>> = None;
@@ -479,7 +484,7 @@ pub fn run(scn: &C19Scn, stats: &mut RunStats) -> Option<Violation> {
             }
             Event::Tick(t) => {
                 first_t.get_or_insert(t.now.0);
-                last_t = t.now;
+                last_t = last_t.max(t.now);
                 let before = String::from_utf8_lossy(&fs[SRC]).into_owned();
                 let ex = tick_exec(scn, t);
                 let out = execute(&mut fs, &ex, crate::cli::run);
@@ -503,6 +508,10 @@ pub fn run(scn: &C19Scn, stats: &mut RunStats) -> Option<Violation> {
                 }
                 prev_env = Some(t.env.clone());
                 if let TickTime::Clock { tick_ns } = &t.time {
+                    if *tick_ns < 0 {
+                        stats.bump("clock_steps_back_during_run_fired");
+                        perturbed = true;
+                    }
                     if *tick_ns > 0 {
                         stats.bump("clock_tick_per_read_fired");
                         perturbed = true;
@@ -563,7 +572,25 @@ pub fn run(scn: &C19Scn, stats: &mut RunStats) -> Option<Violation> {
                 } else {
                     last_committed_removed = false;
                 }
-                let cands = candidate_instants(t, &out);
+                // The instant this run used lies somewhere in the envelope of its clock readings; the
+                // configuration that counts is the latest one any committed run used, so the possible
+                // effective instants form the range [max(lo, eff_lo), max(hi, eff_hi)].  Readiness
+                // only changes at expiry instants: the end points plus the expiries in between are
+                // all the candidates there are.
+                let raw_cands = candidate_instants(t, &out);
+                let a = (*raw_cands.first().unwrap()).max(eff_lo);
+                let b = (*raw_cands.last().unwrap()).max(eff_hi);
+                let mut cands: Vec<(i64, i64)> = vec![a, b];
+                for e in expiries() {
+                    if (e, 0) > a && (e, 0) < b {
+                        cands.push((e, 0));
+                    }
+                }
+                cands.sort();
+                cands.dedup();
+                eff_lo = a;
+                eff_hi = b;
+                last_t = last_t.max(eff_hi);
                 // distinct one-shot results over the envelope of possible "now" values
                 let mut refs: Vec<String> = Vec::new();
                 for c in &cands {
